@@ -112,6 +112,7 @@ def _inside(ivs, v):
 # ---------------------------------------------------------------------------
 
 def _mp_psi(m):
+    m = int(m)
     return lambda x: mpmath.psi(m, x)
 
 
@@ -121,6 +122,8 @@ def _hyperu_poly(m, b, x):
 
 
 def _mp_hyperu(a, b):
+    a = int(a) if isinstance(a, (int, np.integer)) else float(a)
+    b = int(b) if isinstance(b, (int, np.integer)) else float(b)
     c = 1 + a - b         # exact for the dyadic parameter grid
 
     def f(x):
@@ -555,7 +558,9 @@ def prop_filled(case, stats):
     x, v = case['x'], case['v']
     what = 'nthderiv.np_filled_like(%r, %r%s)' % (x.tolist() if isinstance(x, np.ndarray) else x, v, ', out=..' if case['out'] else '')
     f = _fn('np_filled_like')
-    ref = np.full(np.shape(x), float(v))
+    # like numpy.full_like: the result has the type of x (an integer x truncates the fill value); a given out buffer
+    # keeps its own type
+    ref = np.full(np.shape(x), float(v)) if case['out'] else np.asarray(np.full_like(np.asarray(x), v), dtype=float)
     if case['out']:
         out = np.full(np.shape(x), np.nan)
         ret = guard(f, x, v, out)
@@ -653,7 +658,7 @@ def _wide_spec(name, extras):
         'exp2': ('+-', -40, math.log10(900), None, None),
         'erf': ('+-', -40, math.log10(24), None, None), 'erfi': ('+-', -40, math.log10(24), None, None),
         'sin': ('+-', -40, 45, None, None), 'cos': ('+-', -40, 45, None, None),
-        'arctan': ('+-', -40, 45, None, lambda n: n), 'arcsinh': ('+-', -40, 45, None, lambda n: n),
+        'arctan': ('+-', -40, 45, None, lambda n: n + 1), 'arcsinh': ('+-', -40, 45, None, lambda n: n),
         'arccosh': ('+', 0.05, 45, None, lambda n: n), 'log1p': ('+', -40, 45, None, lambda n: n),
         'arcsin': ('+-', -40, -2, None, None), 'arccos': ('+-', -40, -2, None, None), 'arctanh': ('+-', -40, -2, None, None),
         'gammaln': ('+', -30, 30, lambda n: n, lambda n: max(n - 1, 0)),
@@ -672,9 +677,9 @@ def _wide_range(name, extras, n):
     signs, lmin, lmax, psmall, plarge = spec
     mm = extras[0] if name == 'polygamma' else 0
     if psmall is not None and psmall(n) > 0:
-        lmin = max(lmin, -(303.0 - _lgf(n + mm)) / psmall(n))
+        lmin = max(lmin, -(299.0 - _lgf(n + mm)) / psmall(n))
     if plarge is not None and plarge(n) > 0:
-        lmax = min(lmax, 298.0 / plarge(n))
+        lmax = min(lmax, 297.0 / plarge(n))
     if lmin >= lmax:
         return None
     return signs, lmin, lmax
@@ -722,6 +727,9 @@ def smooth_cases(draw, name, tier):
         extras = [draw(st.one_of(st.sampled_from(HYPERU_A), st.sampled_from(HYPERU_A_NEG))), draw(st.sampled_from(HYPERU_B))]
     else:
         extras = []
+    if extras and draw(st.integers(0, 2)) == 0:
+        # extra parameters as NumPy scalars instead of Python numbers
+        extras = [np.int64(e) if isinstance(e, int) else np.float64(e) for e in extras]
     steered = {}
     # kind of argument: float64 in the usual range (most cases), float64 of extreme magnitude, integer typed, float32
     kind = draw(st.sampled_from(['f64'] * 6 + ['wide', 'wide', 'int', 'int', 'f32']))
@@ -730,6 +738,9 @@ def smooth_cases(draw, name, tier):
         kind = 'f64'
     if kind == 'f32' and n > 4:
         n = draw(st.integers(0, 4))
+    if kind in ('int', 'wide') and draw(st.booleans()):
+        # integer powers that wrap and results near the ends of the double range need the higher orders
+        n = draw(st.integers(max(1, spec['cap'][tier] // 2), spec['cap'][tier]))
     if kind == 'wide' and _wide_range(name, extras, n) is None:
         kind = 'f64'
     if kind == 'int':
@@ -740,7 +751,8 @@ def smooth_cases(draw, name, tier):
             if len(shape) == 2:
                 form = 'arr2'
             steered[KF_INTARG] = 1
-        pt = st.sampled_from(int_pts).map(float)
+        big = BIG_INTS.get(name)
+        pt = (st.one_of(st.sampled_from(int_pts), st.sampled_from(big)) if big else st.sampled_from(int_pts)).map(float)
     elif kind == 'f32':
         form, shape = draw(_form_and_shape(spec['maxel'], F32_FORMS))
         pt = _point(ivs, specials).map(lambda v: float(np.float32(v))).filter(lambda v: _inside(ivs, v))
@@ -826,6 +838,8 @@ def piecewise_cases(draw, name, tier):
         else:
             hi = lo + draw(st.one_of(st.integers(1, 4), gen.nice_floats(0.5, 4.0)))
         extras = [lo, hi]
+        if draw(st.integers(0, 2)) == 0:
+            extras = [np.int64(e) if isinstance(e, int) else np.float64(e) for e in extras]
     k_int = st.integers(-5, 5)
     if kind == 'wide':
         pt = st.tuples(st.sampled_from([1.0, -1.0]), st.one_of(gen.nice_floats(3.0, 45.0), gen.nice_floats(-40.0, -3.0))).map(
@@ -878,9 +892,12 @@ def _keep_margin(name, jump, v, lo, hi):
 
 @st.composite
 def filled_cases(draw, tier):
-    form, shape = draw(_form_and_shape(4))
+    form, shape = draw(_form_and_shape(4, FORMS + INT_FORMS[:3] + F32_FORMS))
     cnt = int(np.prod(shape, dtype=int))
-    vals = [draw(gen.nice_floats(-5.0, 5.0)) for _ in range(cnt)]
+    if form in INT_FORMS:
+        vals = [float(draw(st.integers(-5, 5))) for _ in range(cnt)]
+    else:
+        vals = [draw(gen.nice_floats(-5.0, 5.0)) for _ in range(cnt)]
     v = draw(st.one_of(st.integers(-3, 3), gen.nice_floats(-5.0, 5.0)))
     return {'f': 'np_filled_like', 'n': 0, 'extras': [], 'form': form, 'x': _build(form, vals, shape), 'v': v,
             'out': draw(st.booleans())}
